@@ -1,3 +1,4 @@
+import Proofs.Prune
 import Proofs.Rules
 import Proofs.MatchSound
 /-! Property theorems of C02 live in the imported files; the list audited on every run is in harness/props/c02.py. -/
